@@ -217,10 +217,13 @@ Apply(mode, ps) ==
   /\ UNCHANGED <<data, lo, hi, ranged>>
 
 (* mpt_linepart_code / mpt_linepart_real on the fraction a/b               *)
-Encode(a, b) ==
-  /\ obs' = [a |-> "encode", arg |-> [a |-> a, b |-> b],
-             exp |-> IF a < 0 \/ a > b THEN [ret |-> "refused", code |-> 0] ELSE [ret |-> "ok", code |-> Code(a, b)]]
+EncodeNums(b) == IF b <= 16 THEN -1..(b + 1)
+                 ELSE {-1, 0, 1, 2, 3, b \div 65536, b \div 65536 + 1, b \div 3, b \div 2, b - 2, b - 1, b, b + 1}
+Encode(a, b, ret, code) ==
+  /\ obs' = [a |-> "encode", arg |-> [a |-> a, b |-> b], exp |-> [ret |-> ret, code |-> code]]
   /\ UNCHANGED <<data, lo, hi, ranged, pos, parts>>
+EncodeRet(a, b)  == IF a < 0 \/ a > b THEN "refused" ELSE "ok"
+EncodeCode(a, b) == IF a < 0 \/ a > b THEN 0 ELSE Code(a, b)
 
 ---------------------------------------------------------------------------
 Flag(b) == IF b THEN 1 ELSE 0
@@ -242,7 +245,7 @@ Next ==
         /\ NextPart(n, PartOf(Offered(n)))
   \/ DoJoin
   \/ \E mode \in {"fresh", "set"} : Len(data) > 0 /\ Apply(mode, ApplyResult(mode))
-  \/ Len(data) = 0 /\ ranged /\ \E b \in CodeDen : \E a \in -1..(b + 1) : Encode(a, b)
+  \/ Len(data) = 0 /\ ranged /\ \E b \in CodeDen : \E a \in EncodeNums(b) : Encode(a, b, EncodeRet(a, b), EncodeCode(a, b))
 
 Spec == Init /\ [][Next]_vars
 
